@@ -1064,7 +1064,11 @@ func sentinelErr(gl *ssa.Global) (string, bool) {
 	if n, ok := pt.Elem().(*types.Named); !ok || n.Obj().Name() != "error" || n.Obj().Pkg() != nil {
 		return "", false
 	}
-	return fmt.Sprintf("(iface-mk 1000000 %d)", hashStr(gl.Pkg.Pkg.Path()+"."+gl.Name())), true
+	tag := 1000000
+	if strings.HasPrefix(gl.Pkg.Pkg.Path(), "github.com/basekick-labs/arc") {
+		tag = 1000001 // a sentinel declared by the repository itself (library code cannot return it on its own)
+	}
+	return fmt.Sprintf("(iface-mk %d %d)", tag, hashStr(gl.Pkg.Pkg.Path()+"."+gl.Name())), true
 }
 
 func locKey(l *Loc) string {
